@@ -10,8 +10,10 @@ import (
 	"os"
 	"os/exec"
 	"path/filepath"
+	"runtime/debug"
 	"sort"
 	"strings"
+	"sync"
 	"time"
 
 	"verif/vrt"
@@ -20,7 +22,7 @@ import (
 const gombokEnv = "C08_GOMBOK"
 
 // forced productions: batch b of a run always contains production mustList[b % len].
-var mustList = []string{"generic", "recursive", "override+imported", "big", "mutual", "newtype", "value+imported", "plain", "generic", "recursive+imported"}
+var mustList = []string{"generic", "recursive", "override+imported", "big", "mutual", "newtype", "value+imported", "plain", "generic-noholder", "recursive+imported"}
 
 type caseRun struct {
 	w     *vrt.W
@@ -28,7 +30,9 @@ type caseRun struct {
 	c     *Case
 	dir   string
 	files map[string]string // relative path -> content (witness)
-	notes []string
+
+	inconclusive bool // the harness could not reach a verdict
+	refused      bool // gombok emitted nothing for a package
 }
 
 func (cr *caseRun) witness(extra map[string]any) any {
@@ -49,6 +53,7 @@ func (cr *caseRun) write(rel, content string) error {
 }
 
 func (cr *caseRun) harness(what string, detail string) {
+	cr.inconclusive = true
 	cr.w.Add("harness.inconclusive_cases", 1)
 	cr.w.Note(fmt.Sprintf("batch %d case %d: %s: %s", cr.w.Batch, cr.idx, what, trunc(detail, 600)))
 	if cr.w.Replay {
@@ -86,7 +91,22 @@ func runCase(w *vrt.W, i int, gombok string) {
 		fmt.Fprintln(os.Stderr, "keeping", dir)
 	}
 	cr := &caseRun{w: w, idx: i, c: c, dir: dir, files: map[string]string{}}
-	w.Guard(i, func() any { return cr.witness(nil) }, func() { cr.run(gombok) })
+	func() {
+		// a panic here is a defect of the harness, never a verdict about gombok
+		defer func() {
+			if rec := recover(); rec != nil {
+				cr.harness("worker panicked", fmt.Sprintf("%v\n%s", rec, debug.Stack()))
+			}
+		}()
+		cr.run(gombok)
+	}()
+	switch {
+	case cr.inconclusive:
+	case cr.refused:
+		w.Add("cases.refused_by_gombok", 1)
+	default:
+		w.Add("cases.conclusive", 1)
+	}
 }
 
 func (cr *caseRun) run(gombok string) {
@@ -117,9 +137,11 @@ func (cr *caseRun) run(gombok string) {
 			case strings.Contains(res.out, "format error"):
 				w.Violation(i, "gombok/derive/compile/format-error", "gombok could not format its own output:\n"+trunc(res.out, 3000), cr.witness(map[string]any{"gombok_output": trunc(res.out, 8000)}))
 			case strings.Contains(res.out, "can't summon") || strings.Contains(res.out, "can't derive"):
+				cr.refused = true
 				w.Add("gombok.refused_packages", 1)
 				w.Note(fmt.Sprintf("batch %d case %d: gombok refused package %s: %s", w.Batch, i, p.Name, firstLine(res.out, "can't")))
 			default:
+				cr.refused = true
 				w.Add("gombok.crashed_packages", 1)
 				w.Note(fmt.Sprintf("batch %d case %d: gombok exited %d on package %s without emitting instances: %s", w.Batch, i, res.exit, p.Name, trunc(firstLine(res.out, "panic"), 300)))
 			}
@@ -191,9 +213,19 @@ func (cr *caseRun) run(gombok string) {
 		}
 		bs = append(bs, built{p, filepath.Join(cr.dir, p.Name+".test"), tgs})
 	}
-	for _, b := range bs {
-		res := runProc(cr.dir, 20*time.Minute, childEnv(), "go", "test", "-c", "-o", b.bin, "./"+b.p.Name)
-		if res.timedOut || res.exit != 0 {
+	// compile and run the law tests of the packages side by side
+	compiled := make([]procResult, len(bs))
+	var wg sync.WaitGroup
+	for k, b := range bs {
+		wg.Add(1)
+		go func(k int, b built) {
+			defer wg.Done()
+			compiled[k] = runProc(cr.dir, 20*time.Minute, childEnv(), "go", "test", "-c", "-o", b.bin, "./"+b.p.Name)
+		}(k, b)
+	}
+	wg.Wait()
+	for k, b := range bs {
+		if res := compiled[k]; res.timedOut || res.exit != 0 {
 			cr.harness("law test of package "+b.p.Name+" does not compile (harness defect, not a verdict)", res.out)
 			if os.Getenv("C08_DEBUG") != "" {
 				fmt.Fprintln(os.Stderr, res.out)
@@ -202,12 +234,20 @@ func (cr *caseRun) run(gombok string) {
 		}
 	}
 	w.Site("gombok/derive/laws")
-	for _, b := range bs {
-		if !cr.runLaws(b.p, b.bin, b.tgs) {
+	oks := make([]bool, len(bs))
+	for k, b := range bs {
+		wg.Add(1)
+		go func(k int, b built) {
+			defer wg.Done()
+			oks[k] = cr.runLaws(b.p, b.bin, b.tgs)
+		}(k, b)
+	}
+	wg.Wait()
+	for _, ok := range oks {
+		if !ok {
 			return
 		}
 	}
-	w.Add("cases.conclusive", 1)
 	if w.WantSample() {
 		var ds []string
 		for _, p := range c.Pkgs {
@@ -232,48 +272,88 @@ func firstLine(s, contains string) string {
 	return s
 }
 
+func (cr *caseRun) shapeClass(typ string) string {
+	for _, p := range cr.c.Pkgs {
+		for _, d := range p.Decls {
+			if d.Pkg.Name+"."+d.Name == typ {
+				switch {
+				case len(d.Fields) >= 20:
+					return "many-fields"
+				case d.SelfRec:
+					return "recursive-type"
+				case hasNamedField(d):
+					return "nested-products"
+				}
+				return "other"
+			}
+		}
+	}
+	return "other"
+}
+
 func (cr *caseRun) runLaws(p *Pkg, bin string, tgs []lawTarget) bool {
 	w, i := cr.w, cr.idx
+	var skip []string
 	exec1 := func() (lawOutput, procResult) {
 		outFile := filepath.Join(cr.dir, p.Name+".law.out")
 		os.Remove(outFile)
-		res := runProc(filepath.Join(cr.dir, p.Name), 150*time.Second, childEnv("C08_OUT="+outFile), bin, "-test.run", "TestC08", "-test.timeout", "120s", "-test.count", "1")
+		res := runProc(filepath.Join(cr.dir, p.Name), 330*time.Second, childEnv("C08_OUT="+outFile, "C08_SKIP="+strings.Join(skip, ";")), bin, "-test.run", "TestC08", "-test.timeout", "300s", "-test.count", "1")
 		b, _ := os.ReadFile(outFile)
 		return parseLawOutput(string(b)), res
 	}
-	lo, res := exec1()
-	w.Add("lawtests.run", 1)
-	if !lo.done {
-		// the law test died: stack overflow / timeout while a derivation was open
-		tc, typ := "unknown", "unknown"
-		if lo.hasOpen {
-			tc, typ = lo.open[0], lo.open[1]
+	var lo lawOutput
+	var allFails []lawFail
+	ended := map[string]bool{}
+	for attempt := 0; ; attempt++ {
+		var res procResult
+		lo, res = exec1()
+		w.Add("lawtests.run", 1)
+		for k := range lo.ended {
+			ended[k] = true
 		}
-		kind := "crash"
-		switch {
-		case strings.Contains(res.out, "stack overflow") || strings.Contains(res.out, "goroutine stack exceeds"):
-			kind = "nontermination"
-		case res.timedOut || strings.Contains(res.out, "test timed out"):
-			kind = "nontermination"
+		if lo.done {
+			allFails = append(allFails, lo.fails...)
+			break
 		}
-		// confirm by a rerun (a loaded machine must not produce a verdict)
-		lo2, res2 := exec1()
-		if lo2.done {
-			cr.harness("law test died once and passed on rerun (no verdict)", res.out)
-			lo, res = lo2, res2
-		} else {
-			if !lo.hasOpen {
-				cr.harness("law test died outside any derivation", res.out)
-				return false
-			}
-			detail := fmt.Sprintf("the law test of %s[%s] did not finish (confirmed by a rerun): %s\n%s", tc, typ, kind, trunc(firstFatal(res.out), 1500))
-			w.Violation(i, "gombok/derive/"+tc+"/"+kind, detail, cr.witness(map[string]any{"derivation": tc + "[" + typ + "]", "output": trunc(res.out, 6000)}))
+		// the law test died while a derivation was open: CPU budget (ABORT line), stack overflow, or other
+		if !lo.hasOpen {
+			cr.harness("law test died outside any derivation", res.out)
 			return false
 		}
+		tc, typ := lo.open[0], lo.open[1]
+		switch {
+		case lo.aborted:
+			allFails = append(allFails, lo.fails...) // includes the nontermination FAIL line
+		case strings.Contains(res.out, "stack overflow") || strings.Contains(res.out, "goroutine stack exceeds"):
+			allFails = append(allFails, lo.fails...)
+			allFails = append(allFails, lawFail{tc, "nontermination", typ, "unbounded recursion: " + firstFatal(res.out)})
+		case res.timedOut || strings.Contains(res.out, "test timed out"):
+			cr.harness("law test hit the wall-clock safety net without burning its CPU budget (no verdict)", res.out)
+			return false
+		default:
+			allFails = append(allFails, lo.fails...)
+			allFails = append(allFails, lawFail{tc, "crash", typ, firstFatal(res.out)})
+		}
+		skip = append(skip, tc+":"+typ)
+		if attempt >= 5 {
+			break
+		}
 	}
+	for k := range ended {
+		lo.ended[k] = true
+	}
+	for j := range allFails {
+		if allFails[j].law == "nontermination" {
+			allFails[j].law += "/" + cr.shapeClass(allFails[j].typ)
+		}
+	}
+	lo.fails = allFails
 	for _, f := range lo.fails {
 		w.Violation(i, "gombok/derive/"+f.tc+"/"+f.law, fmt.Sprintf("%s[%s]: %s", f.tc, f.typ, f.detail),
 			cr.witness(map[string]any{"derivation": f.tc + "[" + f.typ + "]", "law": f.law}))
+	}
+	for k, v := range lo.maxes {
+		w.Max("law."+k, v)
 	}
 	for k, v := range lo.stats {
 		w.Add("law."+k, v)
@@ -436,19 +516,17 @@ func main() {
 			"struct shapes come from the grammar above; shapes outside it (arrays, channels, unnamed interfaces, named types over library structs such as `type T fp.Option[int]`, recursion not through a pointer) are not covered",
 			"values are a constructed pool per type (bases, near-equal variants at every field position, nil vs empty, equal-but-not-identical pointers), not all values; floats are exact dyadic non-negative numbers, no NaN",
 			"gombok refusing or crashing on a package emits no instance and is counted, not judged; Show is only required to be total, deterministic and equal on equal values",
-			"the order of instance parameters of a generic instance function is not prescribed; only their multiset is checked",
+			"the order of instance parameters of a generic instance function is not prescribed; only their multiset is checked; a type parameter counts as used for a typeclass when an instance for it is summoned (under Monoid an occurrence only inside a slice/Seq/map element is not)",
 			"hand-written instances of the scratch packages are lawful by construction",
 		},
 		Floors: func(tier string) map[string]int64 {
 			f := map[string]int64{"derivations.Eq": 3, "derivations.Ord": 3, "derivations.Hashable": 3, "derivations.Monoid": 3, "derivations.Clone": 3, "derivations.Show": 3,
 				"pairs_evaluated": 5000, "triples_evaluated": 1000, "overriding_instance_derivations": 1, "recursive_type_derivations": 1, "generic_derivations": 1,
-				"law.Eq.near_equal_pairs": 100, "cases.conclusive": 8}
+				"law.Eq.near_equal_pairs": 100, "cases.conclusive": 8,
+				"resolution.local-override": 1, "resolution.type-package": 1, "derivations_over_21_fields": 1}
 			if tier == "thorough" {
 				f["cases.conclusive"] = 110
-				f["derivations_over_21_fields"] = 1
 				f["implicit_derivations_from_recursive_true"] = 1
-				f["resolution.type-package"] = 1
-				f["resolution.local-override"] = 1
 			}
 			return f
 		},
@@ -463,6 +541,10 @@ func main() {
 					res[strings.TrimPrefix(k, "resolution.")] = v
 				}
 			}
+			// one evaluation = one derived instance whose law test ran to completion (the unit that
+			// distinct_nontrivial counts shapes of); the scratch modules are reported separately
+			cov["scratch_modules"] = m.Cases
+			cov["evaluations"] = m.Counters["derivations.total"]
 			cov["derivations_per_typeclass"] = per
 			cov["derivations_by_strongest_resolution_rule"] = res
 			cov["shapes_gombok_refused"] = m.Counters["gombok.refused_packages"] + m.Counters["instances_not_emitted"]
